@@ -114,7 +114,7 @@ class Render:
         elif k == "call":
             self.emit("func.call @ext() : () -> ()", ind)
         elif k == "lcall":
-            self.emit('"llvm.call"() <{callee = @ext, fastmathFlags = #llvm.fastmath<none>, CConv = #llvm.cconv<ccc>, '
+            self.emit('"llvm.call"() <{callee = @lext, fastmathFlags = #llvm.fastmath<none>, CConv = #llvm.cconv<ccc>, '
                       'op_bundle_sizes = array<i32>, operandSegmentSizes = array<i32: 0, 0>, '
                       'TailCallKind = #llvm.tailcallkind<none>}> : () -> ()', ind)
         elif k == "callnone":
@@ -134,6 +134,8 @@ def render(prog, decls=True):
     return f"""builtin.module {{
 {accel_decls() if decls else ""}
   func.func private @ext() -> ()
+  "llvm.func"() <{{sym_name = "lext", function_type = !llvm.func<void ()>, CConv = #llvm.cconv<ccc>, linkage = #llvm.linkage<"external">, visibility_ = 0 : i64}}> ({{
+  }}) : () -> ()
   func.func @f(%a0 : i32, %a1 : i32, %a2 : i32, %a3 : i32, %c0b : i1, %c1b : i1, %lb : index, %ub : index, %st : index) {{
     %l = arith.constant 1 : i5
     %c0 = arith.constant 0 : index
